@@ -12,6 +12,7 @@
 #include <barrier>
 #include <cstdio>
 #include <cstdlib>
+#include <fstream>
 #include <string>
 #include <thread>
 #include <vector>
@@ -46,6 +47,43 @@ std::string run_op(int op) {
 
 }  // namespace
 
+// ---- corpus-driven operations: every WPT URL record and every IDNA vector of the committed
+// snapshot, so that hidden shared state anywhere on the parse / IDNA paths is exercised
+struct CorpusOp { int kind; std::string a, b; bool has_base; };  // 0 parse, 1 to_ascii, 2 to_unicode
+std::string unhex(const std::string& h) {
+  std::string o;
+  for (size_t i = 0; i + 1 < h.size(); i += 2) o.push_back((char)strtol(h.substr(i, 2).c_str(), nullptr, 16));
+  return o;
+}
+std::vector<CorpusOp> load_corpus() {
+  std::vector<CorpusOp> v;
+  const char* dd = getenv("VERIF_DATA");
+  std::string dir = dd ? dd : "/verif/data";
+  auto split = [](const std::string& line) { std::vector<std::string> f; size_t p = 0; for (;;) { size_t t = line.find('\t', p); f.push_back(line.substr(p, t == std::string::npos ? std::string::npos : t - p)); if (t == std::string::npos) break; p = t + 1; } return f; };
+  {
+    std::ifstream in(dir + "/wpt/urltests.tsv");
+    std::string line;
+    while (std::getline(in, line)) { auto f = split(line); if (f.size() < 3) continue; v.push_back({0, unhex(f[1]), f[2] == "-" ? "" : unhex(f[2]), f[2] != "-"}); }
+  }
+  {
+    std::ifstream in(dir + "/wpt/idnatest.tsv");
+    std::string line;
+    while (std::getline(in, line)) { if (line.empty() || line[0] == '#') continue; auto f = split(line); if (f.size() < 3) continue; std::string d = unhex(f[1]); if (d.empty() || d.size() > 200) continue; v.push_back({1, d, "", false}); if (f[2] != "-") v.push_back({2, unhex(f[2]), "", false}); }
+  }
+  return v;
+}
+std::string run_corpus_op(const CorpusOp& op) {
+  switch (op.kind) {
+    case 0: {
+      if (op.has_base) { auto bb = ada::parse<ada::url_aggregator>(op.b); if (!bb) return "basefail"; auto u = ada::parse<ada::url_aggregator>(op.a, &*bb); return u ? "ok:" + std::string(u->get_href()) : "fail"; }
+      auto u = ada::parse<ada::url>(op.a);
+      return u ? "ok:" + u->get_href() : "fail";
+    }
+    case 1: { std::string o; bool ok = ada::idna::to_ascii(op.a, o); return (ok ? "ok:" : "fail:") + o; }
+    default: return ada::idna::to_unicode(op.a);
+  }
+}
+
 int main(int argc, char** argv) {
   uint64_t seed = argc > 1 ? strtoull(argv[1], nullptr, 10) : 1;
   int rounds = argc > 2 ? atoi(argv[2]) : 200;
@@ -55,6 +93,36 @@ int main(int argc, char** argv) {
   for (int i = 0; i < kOps; i++) expected[i] = run_op(i);
   uint64_t calls = 0, wrong = 0, first_use_rounds = 0;
   std::string first_wrong;
+  // ---- part b2: corpus-driven, several threads walking different slices of the same corpus
+  uint64_t corpus_calls = 0;
+  {
+    std::vector<CorpusOp> corpus = load_corpus();
+    std::vector<std::string> exp(corpus.size());
+    for (size_t i = 0; i < corpus.size(); i++) exp[i] = run_corpus_op(corpus[i]);
+    int passes = rounds > 50 ? 6 : 2;
+    for (int pass = 0; pass < passes && !corpus.empty(); pass++) {
+      ada::idna::verif_reset_tables();
+      unsigned n = 4 + (unsigned)(rng.next() % 9);
+      std::vector<size_t> starts(n), strides(n);
+      for (unsigned t = 0; t < n; t++) { starts[t] = (size_t)(rng.next() % corpus.size()); strides[t] = 1 + (size_t)(rng.next() % 7); }
+      std::atomic<uint64_t> bad{0};
+      std::vector<std::string> msg(n);
+      std::vector<std::thread> th;
+      size_t per_thread = corpus.size() / 2;
+      for (unsigned t = 0; t < n; t++)
+        th.emplace_back([&, t] {
+          size_t idx = starts[t];
+          for (size_t k = 0; k < per_thread; k++) {
+            std::string got = run_corpus_op(corpus[idx]);
+            if (got != exp[idx]) { bad++; if (msg[t].empty()) msg[t] = "corpus op kind " + std::to_string(corpus[idx].kind) + " on \"" + corpus[idx].a + "\" returned \"" + got + "\" expected \"" + exp[idx] + "\""; }
+            idx = (idx + strides[t]) % corpus.size();
+          }
+        });
+      for (auto& t : th) t.join();
+      corpus_calls += (uint64_t)n * per_thread;
+      if (bad) { wrong += bad; for (auto& m : msg) if (!m.empty() && first_wrong.empty()) first_wrong = "corpus pass " + std::to_string(pass) + ": " + m; }
+    }
+  }
   // ---- part b
   for (int r = 0; r < rounds; r++) {
     ada::idna::verif_reset_tables();  // no other thread exists here
@@ -115,8 +183,8 @@ int main(int argc, char** argv) {
   if (!out.empty()) {
     FILE* f = fopen((out + "/tsan-stats.json").c_str(), "w");
     if (f) {
-      fprintf(f, "{\"seed\":%llu,\"first_use_rounds\":%llu,\"calls\":%llu,\"limit_toggles\":%llu,\"limit_calls\":%llu,\"wrong_results\":%llu}\n", (unsigned long long)seed, (unsigned long long)first_use_rounds,
-              (unsigned long long)calls, (unsigned long long)toggles, (unsigned long long)limit_calls, (unsigned long long)wrong);
+      fprintf(f, "{\"seed\":%llu,\"first_use_rounds\":%llu,\"calls\":%llu,\"corpus_calls\":%llu,\"limit_toggles\":%llu,\"limit_calls\":%llu,\"wrong_results\":%llu}\n", (unsigned long long)seed, (unsigned long long)first_use_rounds,
+              (unsigned long long)calls, (unsigned long long)corpus_calls, (unsigned long long)toggles, (unsigned long long)limit_calls, (unsigned long long)wrong);
       fclose(f);
     }
   }
